@@ -247,6 +247,7 @@ CHECKS['C12'] = dict(
     level_note='Trusted: IR generation, interpreter (cross-checked natively per run), z3, the 30-line reference evaluator. Where the manual does not fix the moment a file-level variable is read by a rule variable, the reference follows ninja (the value at the end of the scope). Bound: the three template families of harness/c12_manifest.cc.',
     assumptions=['the three template families of harness/c12_manifest.cc', 'a file-level variable referenced from a rule variable is read with its final value in that scope (the manual is silent on the moment)'],
     jobs=[dict(name='scoping', harness='c12_manifest.cc', units=_PARSE_UNITS, defines=['MODE_SCOPING'], reach=['single-file', 'include', 'subninja', 'crlf', 'continuation'], bounds='2^8 binding-placement choices x {none, include, subninja} x {LF, CRLF} x continuation'),
+          dict(name='siblings', harness='c12_manifest.cc', units=_PARSE_UNITS, defines=['MODE_SIBLINGS'], reach=['siblings', 'rejected'], bounds='two child files read one after the other, each by include or subninja; rule cc declared at the top and/or in the first child; 2^6 combinations'),
           dict(name='kinds', harness='c12_manifest.cc', units=_PARSE_UNITS, defines=['MODE_KINDS'], reach=['kinds'], bounds='6 self-referencing phony forms x {LF, CRLF}, one statement mixing every input/output kind'),
           dict(name='reject', harness='c12_manifest.cc', units=_PARSE_UNITS, defines=['MODE_REJECT'], reach=['rejected', 'accepted'], bounds='16 ill-formed and 6 well-formed manifests x {LF, CRLF}')])
 
@@ -288,7 +289,7 @@ CHECKS['C14']['level_note'] += ' A second job covers paths of up to 513 componen
 
 # ---- the same harnesses entered through ninja.cc's real_main (flag parsing, NinjaMain, RebuildManifest loop, RunBuild, real StatusPrinter)
 SCENARIOS.append('regen_manifest')     # 29
-SCENARIOS.append('dead_outputs'); SCENARIOS.append('tools_mix'); SCENARIOS.append('generator_runs_restat'); SCENARIOS.append('dyndep_after_order_only'); SCENARIOS.append('console_first'); SCENARIOS.append('restat_consumer')    # 30, 31, 32, 33, 34, 35
+SCENARIOS.append('dead_outputs'); SCENARIOS.append('tools_mix'); SCENARIOS.append('generator_runs_restat'); SCENARIOS.append('dyndep_after_order_only'); SCENARIOS.append('console_first'); SCENARIOS.append('restat_consumer'); SCENARIOS.append('include_switch'); SCENARIOS.append('dyndep_checked_in')    # 30 .. 37
 def _via_main(jobs, thorough_only=False):
     out = []
     for j in jobs:
@@ -332,6 +333,22 @@ CHECKS['C07']['jobs'] += _mode_jobs('MODE_CRASH', [35], extra=['FROM_BUILT', 'SI
 CHECKS['C07']['jobs'] += _mode_jobs('MODE_CRASH', [26], extra=['FROM_BUILT', 'SINGLE_EDIT', 'DOUBLE_EDIT', 'OPS_BEFORE_RECOVERY', 'PARTIAL_WRITES'], suffix='_partial', reach=('died', 'recovered'), quick_defs=['VERIF_MAX_EVENTS=12'], thorough_only=True,
     bounds='the same on a shape with an order-only input and a manifest variant (changed command line) that the user may switch before the killed build and again before the recovery build')
 CHECKS['C07']['level_text'] += ' One job lets a command that dies with ninja leave partially written outputs (newer than every input, garbage content, nothing recorded) and lets the user edit again before the recovery build.'
+CHECKS['C10']['jobs'] += _hist_jobs('CHECK_C10', 3, 3, [36], extra_defs=['SINGLE_EDIT', 'NO_DELETE'], reach=('built', 'incremental-build'))
+CHECKS['C10']['jobs'][-1]['quick']['bounds'] = CHECKS['C10']['jobs'][-1]['quick']['bounds'].replace('any subset of sources edited', 'at most one source edited').replace(', at most one output/depfile deleted', '') + '; the set of headers a command includes changes when its source is edited (same number of headers, the output unchanged under a restat rule)'
+
+def _logtool_jobs(scenarios):
+    out = []
+    for j in _tool_jobs(scenarios, reach=('log-tool',), bounds='fully built tree, then at most one source edited and at most one built file deleted; ninja -t restat or ninja -t recompact through real_main; the next build must run exactly what a control build from the same state runs'):
+        q = dict(j); q['name'] = j['name'].replace('_tools', '_logtools'); q['defines'] = list(j['defines']) + ['ONLY_LOG_TOOLS']; out.append(q)
+    return out
+CHECKS['C03']['jobs'] += _logtool_jobs([7])
+CHECKS['C08']['jobs'] += _logtool_jobs([0, 7])
+CHECKS['C11']['jobs'] += _logtool_jobs([7, 37])
+CHECKS['C13']['jobs'] += _mode_jobs('MODE_DEPFILE_BYTES', [3], suffix='_depfile_bytes', reach=('arbitrary', 'mutated', 'accepted', 'rejected'), quick_defs=['VERIF_N=2'], thorough_defs=['VERIF_N=3'],
+    bounds='the command writes a depfile of 0..2 (thorough: 3) arbitrary bytes, or a valid depfile with one byte replaced at any position; two invocations, so that ImplicitDepLoader::LoadDepFile (plain depfile) reads it')
+CHECKS['C13']['jobs'] += _mode_jobs('MODE_DEPFILE_BYTES', [1], suffix='_depfile_bytes', reach=('arbitrary', 'mutated', 'accepted', 'rejected'), quick_defs=['VERIF_N=1'], thorough_defs=['VERIF_N=2'],
+    bounds='the same with 0..1 (thorough: 2) arbitrary bytes for a deps=gcc statement (Builder::ExtractDeps, deps log)')
+CHECKS['C13']['level_text'] += ' Two pipeline jobs feed arbitrary depfile bytes through the consumers of the parsed depfile (Builder::ExtractDeps, ImplicitDepLoader::LoadDepFile) inside whole builds.'
 
 # ---- the real process layer (RealCommandRunner, SubprocessSet, Subprocess, PosixJobserverClient) over the modelled operating system of harness/osmodel.h
 _OS_WRAP = ['pipe', 'close', 'read', 'write', 'open', 'fstat', 'sigemptyset', 'sigaddset', 'sigismember', 'sigprocmask', 'sigpending', 'sigaction', 'posix_spawn_file_actions_init', 'posix_spawn_file_actions_destroy',
@@ -370,6 +387,7 @@ for _j in CHECKS['C05']['jobs']:
     if _j['name'] == 'depfile_plain_built': _j.pop('thorough_only', None)
 _thorough_only('C02', ['diamond_order_only', 'dyndep', 'pools'])
 _thorough_only('C03', ['pools'])
+_thorough_only('C19', ['dyndep_tools'])
 _single_edit_variant('C04', 'dyndep')
 _single_edit_variant('C11', 'dyndep'); _single_edit_variant('C11', 'dyndep_two_files')
 for _j in CHECKS['C13']['jobs']:
